@@ -22,14 +22,20 @@ from ..refs import rowtransforms as R
 ID = 'C12'
 LEVEL = 'model_checking'
 ENGINE = 'E2 small-scope enumeration against a cell-by-cell reference model'
-RULE = ('per function (48) x argument form: ALL tables with n<=3 data rows (quick: n<=2 for the largest spaces - cut, '
+RULE = ('per function (49 incl. the rename/convert suffix-notation forms) x argument form: ALL tables with n<=3 data rows (quick: n<=2 for the largest spaces - cut, '
         'cutout, values, two-definition addfields, list-of-converters convert, fillright/fillleft, 3-field filldown; '
         'thorough: n<=4 for filldown with <=2 fields and addfieldusingcontext) and w<=3 fields whose cells are '
         'position-tagged strings (r<i>c<j>), every vector of row lengths 0..w+1 where padding/trimming is documented '
         '(rectangular otherwise), every equality pattern of field names where selection goes through asindices or no '
         'field is selected by name, x EVERY argument value of the form (all ordered selections of <=w fields by '
         'name/index/mixed incl. repeats and a near-miss unknown name, all insertion indices -(w+2)..w+2 and None, all '
-        'converter forms, where (callable/expression), pass_row, missing in {default, chosen}); cat/stack/annex over 1-3 '
+        'converter forms, where (callable/expression), pass_row, missing in {default, chosen}); multi-entry specs '
+        'reference each other: rename - EVERY spec of 1..w entries keyed by name or in-range index whose new names range '
+        'over the table\'s own field names (swaps, shifts/chains, collisions, identity) and two fresh names, in EVERY '
+        'entry order, as dict and as suffix-notation assignments (with/without an initial dict), strict on/off; '
+        'set/extend/pushheader with headers built from the own field names; convert pass_row dict specs computing each '
+        'field from any other field in every key style and order, pass_row list specs, translation dictionaries whose '
+        'values are keys again; fieldmap output names over own+fresh names; cat/stack/annex over 1-3 '
         'tables with equal/permuted/overlapping/disjoint/narrower/wider headers; fill functions: all cell assignments '
         'over {missing, x, y}.  states = distinct (tables, arguments) points; transitions = petl evaluations; a case '
         'is non-trivial when it has >=1 data row and the expected output differs from the (first) input table or an '
@@ -369,9 +375,43 @@ def rename_pair_args(hdrs, ns):
     keys = list(hdr) + list(range(len(hdr) + 2)) + ['zz', unknown(hdr), hdr[0] + 'x']
     out = []
     for k in keys:
-        for new in ('NEW', hdr[-1]):
+        for new in ['NEW'] + list(hdr):
             for kw in ({}, {'strict': True}, {'strict': False}):
                 out.append(((k, new), kw))
+    return out
+
+
+def rename_chain_specs(hdr):
+    """EVERY rename spec with 1..w entries, as an ordered list of (key, new name): each field is untouched or
+    renamed, keyed by its name or by its index, to any field name of the table (its own, or another one: swaps,
+    shifts/chains, collisions) or to one of two fresh names; every ORDER of the entries (a dict is ordered)."""
+    w = len(hdr)
+    news = list(hdr) + ['N0', 'N1']
+    per = [None] + [(style, new) for style in (0, 1) for new in news]
+    specs = []
+    for choice in itertools.product(per, repeat=w):
+        entries = [((hdr[j] if c[0] == 0 else j), c[1]) for j, c in enumerate(choice) if c is not None]
+        if not entries:
+            continue
+        for perm in itertools.permutations(entries):
+            specs.append(list(perm))
+    specs.sort(key=len)
+    return specs
+
+
+def rename_chain_dict_args(hdrs, ns):
+    return [((dict(sp),), kw) for sp in rename_chain_specs(hdrs[0]) for kw in ({}, {'strict': False})]
+
+
+def rename_chain_setitem_args(hdrs, ns):
+    """suffix notation: view = rename(t[, {first entries}]); view[key] = new for the remaining entries, in order."""
+    out = []
+    for sp in rename_chain_specs(hdrs[0]):
+        for k in sorted({0, 1, len(sp) - 1}):
+            if k >= len(sp):
+                continue
+            for kw in ({}, {'strict': False}):
+                out.append(((sp[k:], sp[:k]), kw))
     return out
 
 
@@ -399,12 +439,27 @@ def rename_dict_args(hdrs, ns):
 
 
 def new_headers(hdrs, ns):
-    w = len(hdrs[0])
-    return [(typ('h%d' % i for i in range(m)),) for m in range(0, w + 2) for typ in (list, tuple)]
+    """Fresh names of every length 0..w+1, and headers built from the table's OWN field names (reversed, rotated,
+    repeated, mixed with fresh ones) so that new names coincide with old ones."""
+    hdr = list(hdrs[0])
+    w = len(hdr)
+    out = [(typ('h%d' % i for i in range(m)),) for m in range(0, w + 2) for typ in (list, tuple)]
+    own = [hdr[::-1], hdr[1:] + hdr[:1], hdr[:1] * w, hdr + hdr[:1], ['h0'] + hdr[:-1], hdr[-1:]]
+    seen = []
+    for h in own:
+        if h not in seen:
+            seen.append(h)
+            out.append((list(h),))
+    return out
 
 
 space('rename', 'old,new', H1(distinct_hdrs), T1(LENS_ALL), rename_pair_args)
 space('rename', 'dict', H1(distinct_hdrs), T1(LENS_ALL), rename_dict_args)
+# chains / swaps / collisions: the header is what matters, rows (all lengths) only have to pass through
+space('rename', 'dict: every spec over own+fresh names, every entry order', H1(distinct_hdrs), T1(LENS_ALL),
+      rename_chain_dict_args, NS(0, 1, 2))
+space('rename[]=', 'suffix notation: every spec over own+fresh names, every order', H1(distinct_hdrs), T1(LENS_ALL),
+      rename_chain_setitem_args, NS(0, 1, 1))
 space('setheader', 'list', H1(all_hdrs), T1(LENS_ALL), lambda hdrs, ns: [(a, {}) for a in new_headers(hdrs, ns)])
 space('extendheader', 'list', H1(all_hdrs), T1(LENS_ALL), lambda hdrs, ns: [(a, {}) for a in new_headers(hdrs, ns)])
 space('pushheader', 'list', H1(all_hdrs), T1(LENS_ALL), lambda hdrs, ns: [(a, {}) for a in new_headers(hdrs, ns)])
@@ -436,8 +491,21 @@ def some_dict(hdr):
     return d
 
 
+def chain_dict(hdr):
+    """A translation dictionary whose values are themselves keys / other cells of the table (x->y, y->z): a
+    dictionary translation is ONE lookup per cell, not a repeated substitution."""
+    d = {}
+    w = len(hdr)
+    for i in range(3):
+        for j in range(w):
+            # the translation of a cell is the (same row's) cell of the next column, which is a key again
+            d[cell('r', i, j)] = cell('r', i, (j + 1) % w) if w > 1 else 'K%d' % i
+        d['K%d' % i] = 'Z'
+    return d
+
+
 def convs(hdr):
-    return ['@up', '@tag', 'upper', ('replace', 'c', 'C'), ['replace', 'r', 'RR', 1], some_dict(hdr)]
+    return ['@up', '@tag', 'upper', ('replace', 'c', 'C'), ['replace', 'r', 'RR', 1], some_dict(hdr), chain_dict(hdr)]
 
 
 def convert_single(hdrs, ns):
@@ -491,7 +559,7 @@ def convert_dictspec(hdrs, ns):
 def convert_listspec(hdrs, ns):
     hdr = hdrs[0]
     w = len(hdr)
-    alph = [None, '@up', 'upper', ('replace', 'c', 'C'), some_dict(hdr)]
+    alph = [None, '@up', 'upper', ('replace', 'c', 'C'), chain_dict(hdr)]
     out = []
     for m in range(0, w + 1):
         for cs in itertools.product(alph, repeat=m):
@@ -537,6 +605,19 @@ def convert_passrow(hdrs, ns):
     out.append((({h: '@vrow' for h in hdr},), {'pass_row': True}))
     out.append((({hdr[0]: '@vget:%s' % hdr[-1], hdr[-1]: '@vget:%s' % hdr[0]},), {'pass_row': True}))
     out.append((([c for c in cs[:w]],), {'pass_row': True}))
+    # every spec in which each selected field is computed from any field of the row (itself, another selected one,
+    # an unselected one): all assignments x key style x entry order.  "Each conversion sees the original row."
+    per = [None] + [(style, src) for style in (0, 1) for src in range(w)]
+    for choice in itertools.product(per, repeat=w):
+        entries = [((hdr[j] if c[0] == 0 else j), '@vget:%s' % hdr[c[1]]) for j, c in enumerate(choice) if c is not None]
+        if len(entries) < 2:
+            continue
+        for perm in itertools.permutations(entries):
+            out.append(((dict(perm),), {'pass_row': True}))
+    lal = [None, '@vrow'] + ['@vget:%s' % h for h in hdr]
+    for m in range(1, w + 1):
+        for cs2 in itertools.product(lal, repeat=m):
+            out.append(((list(cs2),), {'pass_row': True}))
     return out
 
 
@@ -547,6 +628,10 @@ def convert_setitem(hdrs, ns):
         out.append(((((f, '@up'),),), {}))
     out.append(((tuple((h, 'upper') for h in hdr),), {}))
     out.append(((((hdr[0], '@up'),),), {'where': '@idxeq:0:r0c0'}))
+    for a in hdr:
+        for b in hdr:
+            pairs = ((a, '@vget:%s' % b), (b, '@vget:%s' % a)) if a != b else ((a, '@vget:%s' % a),)
+            out.append(((pairs,), {'pass_row': True}))
     return out
 
 
@@ -685,6 +770,7 @@ def fieldmap_entries(hdr):
     out = []
     for j, h in enumerate(hdr):
         out += [h, j, (h, '@up'), (j, '@tag'), (h, some_dict(hdr)), '@get:%s' % h]
+    out.append((hdr[0], chain_dict(hdr)))
     out += ['@echo', "{%s}" % hdr[0], "{%s} + {%s}" % (hdr[0], hdr[-1]), "'lit'"]
     return out
 
@@ -697,9 +783,20 @@ def fieldmap_args(hdrs, ns):
     for e0 in ent:
         for e1 in ent:
             out.append((([('o0', e0), ('o1', e1)],), {}))
-    # output field named like an input field
-    if len(hdrs[0]) > 1:
-        out.append((([(hdrs[0][-1], hdrs[0][0]), (hdrs[0][0], hdrs[0][-1])],), {}))
+    # output fields named like input fields (swaps, shifts): every ordered pair of distinct output names over
+    # own+fresh names x every pair of sources (copy by name / index, callable, expression, translated)
+    hdr = hdrs[0]
+    onames = list(hdr) + ['o0']
+    srcs = []
+    for j, h in enumerate(hdr):
+        srcs += [h, j, '@get:%s' % h, '{%s}' % h, (h, chain_dict(hdr))]
+    for o0 in onames:
+        for o1 in onames:
+            if o0 == o1 or (o0 == 'o0' and o1 == 'o0'):
+                continue
+            for s0 in srcs:
+                for s1 in srcs:
+                    out.append((([(o0, s0), (o1, s1)],), {}))
     return out
 
 
@@ -785,6 +882,12 @@ def call_petl(fn, tables, args, kw):
         view = etl.convert(tables[0], **kw)
         for k, c in args[0]:
             view[k] = c
+        return _rows(view)
+    if fn == 'rename[]=':
+        init = dict(args[1]) if len(args) > 1 and args[1] else None
+        view = etl.rename(tables[0], init, **kw) if init is not None else etl.rename(tables[0], **kw)
+        for k, v in args[0]:
+            view[k] = v
         return _rows(view)
     if fn == 'fieldmap' and args and isinstance(args[0], (list, tuple)):
         args = (OrderedDict(args[0]),) + tuple(args[1:])
